@@ -113,6 +113,20 @@ def check_perm_ops(case):
     return OK(len(orbit) == 8, f"orbit{len(orbit)}")
 
 
+def check_perm_ops_huge(case):
+    """The same symmetry operations on a permutation of a few thousand points, with the
+    interpreter's default recursion budget: the operations are defined for every length."""
+    from ..lib import with_default_recursion_budget
+
+    status, out = with_default_recursion_budget(lambda: check_perm_ops(case))
+    if status == "recursion":
+        return BAD("perm_ops_recursion_error", {"length": len(case)})
+    if out.status == "bad":
+        out.detail = {"length": len(case), "kind": out.kind}
+        return out
+    return OK(True, "huge", key=str(hash(tuple(case))))
+
+
 def _mesh(M):
     return (tuple(M.pattern), frozenset(M.shading))
 
@@ -262,7 +276,7 @@ def check_sets(case):
     return OK(len(want_sets) == 8, f"set_orbit{len(want_sets)}")
 
 
-CHECKS = {"perm_ops": check_perm_ops, "mesh_ops": check_mesh_ops, "equivariance": check_equivariance, "sets": check_sets}
+CHECKS = {"perm_ops_huge": check_perm_ops_huge, "perm_ops": check_perm_ops, "mesh_ops": check_mesh_ops, "equivariance": check_equivariance, "sets": check_sets}
 
 
 def shard_perms(acc, shard, nshards, max_n):
@@ -296,6 +310,7 @@ def set_cases():
 
 def shard_generated(acc, shard, nshards, n_mesh, n_eq, n_sets):
     engine.hyp_run(acc, "perm_ops", check_perm_ops, gen.perms(9, 40).map(list), max(20, n_mesh // 4), shard)
+    engine.hyp_run(acc, "perm_ops_huge", check_perm_ops_huge, gen.perms(1200, 2500).map(list), 2 if n_mesh < 2000 else 10, shard)
     engine.hyp_run(acc, "mesh_ops", check_mesh_ops, gen.mesh_patterns(0, 4), n_mesh, shard)
     engine.hyp_run(acc, "equivariance", check_equivariance, equiv_cases(), n_eq, shard)
     engine.hyp_run(acc, "sets", check_sets, set_cases(), n_sets, shard)
